@@ -275,7 +275,8 @@ fn main() {
                 std::process::exit(0);
             }
             if what == "misc" {
-                let res = std::panic::catch_unwind(props3::misc).unwrap_or_else(|_| Err("panic in one of the trusted leaves (default builders / operators / FCI wrappers)".to_string()));
+                let prop_m = prop.clone();
+                let res = std::panic::catch_unwind(move || props3::misc_for(&prop_m)).unwrap_or_else(|_| Err("panic in one of the trusted leaves (default builders / operators / FCI wrappers)".to_string()));
                 match res {
                     Ok(n) => {
                         eprintln!("bounded misc: {} cases, all hold", n);
